@@ -158,7 +158,13 @@ func (ex *Exec) havocClass(st *State, cls int) {
 			val  *Term
 		}
 		var keeps []keep
-		for id, o := range ex.ownedForeign {
+		var ids []int
+		for id := range ex.ownedForeign {
+			ids = append(ids, id)
+		}
+		sort.Ints(ids)
+		for _, id := range ids {
+			o := ex.ownedForeign[id]
 			if ex.sharedRefs[id] {
 				continue
 			}
